@@ -1,14 +1,25 @@
 #!/bin/bash
-# Build the harness against /repo's current working tree (hooks on, offline).
+# Build the harness against the repository's current working tree (hooks on, offline).
 # VERIF_HARNESS_PKG selects a per-property development binary (./cmd/vh-c19);
 # default: the aggregated binary with every registered driver.
+# VERIF_REPO (default /repo) selects the tree; for any other tree a private go.mod with the
+# replace directive rewritten is used (-modfile) and VERIF_HARNESS_OUT names the binary.
 set -e
 cd "$(dirname "$0")/../harness"
 export GOFLAGS=-mod=mod GOPROXY=off GOSUMDB=off GOTOOLCHAIN=local CGO_ENABLED=${CGO_ENABLED:-0}
+REPO=${VERIF_REPO:-/repo}
+PKG=${VERIF_HARNESS_PKG:-.}
+if [ "$REPO" != "/repo" ]; then
+  OUT=${VERIF_HARNESS_OUT:?VERIF_HARNESS_OUT must be set with VERIF_REPO}
+  MD=$(dirname "$OUT")/gomod; mkdir -p "$MD"
+  sed "s|=> /repo\$|=> $REPO|" go.mod > "$MD/go.mod"
+  cat "$REPO/go.sum" go.sum.extra 2>/dev/null | sort -u > "$MD/go.sum"
+  exec go build -modfile="$MD/go.mod" -tags verif -o "$OUT" "$PKG"
+fi
 cmp -s /repo/go.sum go.sum.base 2>/dev/null || { cp /repo/go.sum go.sum.base; cat /repo/go.sum go.sum.extra 2>/dev/null | sort -u > go.sum; }
 [ -f go.sum ] || cat /repo/go.sum go.sum.extra 2>/dev/null | sort -u > go.sum
-PKG=${VERIF_HARNESS_PKG:-.}
-OUT=vharness
-[ "$PKG" != "." ] && OUT=bin/$(basename "$PKG")
+if [ -f go.sum.extra ] && ! grep -qxFf go.sum.extra go.sum 2>/dev/null; then cat /repo/go.sum go.sum.extra | sort -u > go.sum; fi
+OUT=${VERIF_HARNESS_OUT:-vharness}
+[ "$PKG" != "." ] && [ -z "$VERIF_HARNESS_OUT" ] && OUT=bin/$(basename "$PKG")
 mkdir -p bin
 exec go build -tags verif -o "$OUT" "$PKG"
